@@ -23,7 +23,11 @@ type finisher struct {
 	singleWhere bool   // chain must be exactly one Where call (its args are passed inline)
 	ref         string // relation of the result to the reference id set: set first last count member none
 	core        bool
+	keyed       bool // the model value carries primary key modelKey
 }
+
+// modelKey: a live row whose soft-deleted twin is modelKey+twinOffset
+const modelKey = 14
 
 const (
 	fFind = iota
@@ -48,6 +52,10 @@ const (
 	fPreloadInline
 	fAssocFind
 	fAssocCount
+	fModelKeyDelete
+	fKeyDelete
+	fModelKeyUpdate
+	fModelKeyUpdates
 	nFin
 )
 
@@ -74,6 +82,11 @@ var fins = [nFin]finisher{
 	fPreloadInline: {name: "Preload(rel,cond)", singleWhere: true, ref: "none"},
 	fAssocFind:     {name: "Association.Find", inline: true, ref: "none"},
 	fAssocCount:    {name: "Association.Count", ref: "none"},
+	// the primary key sits in the Model() value / in the value handed to Delete
+	fModelKeyDelete:  {name: "Model(key).Delete(keyless)", write: true, inline: true, ref: "set", keyed: true},
+	fKeyDelete:       {name: "Delete(key)", write: true, inline: true, ref: "set", keyed: true},
+	fModelKeyUpdate:  {name: "Model(key).Update", write: true, ref: "set", keyed: true},
+	fModelKeyUpdates: {name: "Model(key).Updates(struct)", write: true, ref: "set", keyed: true},
 }
 
 func finByName(n string) int {
@@ -164,6 +177,14 @@ func (c Case) String() string {
 		s = "db.Model(&Holder{ID:1})" + dot(ch) + `.Association("Softs").Find(&[]Soft{}` + in + ")"
 	case fAssocCount:
 		s = "db.Model(&Holder{ID:1})" + dot(ch) + `.Association("Softs").Count()`
+	case fModelKeyDelete:
+		s = "db.Model(&Soft{ID:14})" + dot(ch) + ".Delete(&Soft{}" + in + ")"
+	case fKeyDelete:
+		s = "db" + dot(ch) + ".Delete(&Soft{ID:14}" + in + ")"
+	case fModelKeyUpdate:
+		s = "db.Model(&Soft{ID:14})" + dot(ch) + `.Update("m",7)`
+	case fModelKeyUpdates:
+		s = "db.Model(&Soft{ID:14})" + dot(ch) + `.Updates(Soft{M:7})`
 	}
 	if c.Prop {
 		s += "  [PropagateUnscoped]"
@@ -317,6 +338,26 @@ func keys[M rowM](rows []M) []int {
 	}
 	sort.Ints(ids)
 	return ids
+}
+
+// keyed returns a pointer to a model value carrying the primary key id.
+func keyed[M rowM](id int) interface{} {
+	var m M
+	switch any(m).(type) {
+	case Soft:
+		return &Soft{ID: id}
+	case Plain:
+		return &Plain{ID: id}
+	case SoftPtr:
+		return &SoftPtr{ID: id}
+	case SoftEmb:
+		return &SoftEmb{Base: Base{ID: id}}
+	case SoftPre:
+		return &SoftPre{ID: id}
+	case SoftCol:
+		return &SoftCol{ID: id}
+	}
+	return &PlainAll{ID: id}
 }
 
 func updStruct[M rowM]() interface{} {
@@ -502,6 +543,14 @@ func runWrite[M rowM](x *xctx) (o obs) {
 			res = x.chain(x.mk().Model(new(M))).Select("m").Updates(map[string]interface{}{"m": 7, "holder_id": 9})
 		case fDelete, fDeleteTwice:
 			res = x.chain(x.mk()).Delete(new(M), x.inline()...)
+		case fModelKeyDelete:
+			res = x.chain(x.mk().Model(keyed[M](modelKey))).Delete(new(M), x.inline()...)
+		case fKeyDelete:
+			res = x.chain(x.mk()).Delete(keyed[M](modelKey), x.inline()...)
+		case fModelKeyUpdate:
+			res = x.chain(x.mk().Model(keyed[M](modelKey))).Update("m", 7)
+		case fModelKeyUpdates:
+			res = x.chain(x.mk().Model(keyed[M](modelKey))).Updates(updStruct[M]())
 		}
 		o.err, o.errMsg = classify(res.Error)
 		o.n = res.RowsAffected
@@ -528,7 +577,7 @@ func runWrite[M rowM](x *xctx) (o obs) {
 				}
 			}
 		}
-		if x.f == fDelete || x.f == fDeleteTwice {
+		if x.f == fDelete || x.f == fDeleteTwice || x.f == fModelKeyDelete || x.f == fKeyDelete {
 			if len(d.updated) > 0 {
 				o.extra = append(o.extra, fmt.Sprintf("Delete changed the marker column of %v", d.updated))
 			}
